@@ -43,11 +43,26 @@ type FuncContract struct {
 	Loops    []LoopClause
 	Uses     []string
 	UseExprs []ast.Expr
+	PreCalls []PreCall
 	File     string
 	Line     int
 }
 
+// PreCall is an assertion checked immediately before the n-th call (source order) of a callee inside a function.
+type PreCall struct {
+	Callee string // short name of the callee, e.g. "escape"
+	Nth    int    // 1-based; 0 = every call
+	Label  string
+	Src    string
+	Expr   ast.Expr
+	Line   int
+}
+
 type SpecFunc struct {
+	// Reads: optional footprint "reads d[lo:hi]" (hi must be an int parameter): enables the generated frame lemma
+	ReadsParam string
+	ReadsLo    string
+	ReadsHi    string
 	Name    string
 	Pkg     string
 	Params  []specParam
@@ -368,6 +383,25 @@ func (db *ContractDB) parseFile(pkg, file, text string) {
 				cur.Modifies = append(cur.Modifies, e)
 				cur.ModSrc = append(cur.ModSrc, part)
 			}
+		case "precall":
+			// precall <callee>[#n] <label>: <expr>   (arguments of the call are arg0, arg1, ...)
+			if cur == nil || len(fs) < 3 {
+				errf(l.line, "bad precall clause")
+				continue
+			}
+			callee, nth := fs[1], 0
+			if i := strings.Index(callee, "#"); i >= 0 {
+				nth, _ = strconv.Atoi(callee[i+1:])
+				callee = callee[:i]
+			}
+			r := strings.TrimSpace(l.text[strings.Index(l.text, fs[1])+len(fs[1]):])
+			label, src := splitLabel(r)
+			e, err := parseSpecExpr(src)
+			if err != nil || label == "" {
+				errf(l.line, "parse precall %q: %v", src, err)
+				continue
+			}
+			cur.PreCalls = append(cur.PreCalls, PreCall{Callee: callee, Nth: nth, Label: label, Src: src, Expr: e, Line: l.line})
 		case "use":
 			if cur != nil {
 				e, err := parser.ParseExpr(rest)
@@ -435,6 +469,18 @@ func (db *ContractDB) parseFile(pkg, file, text string) {
 			eqi = strings.Index(after, "=")
 			sf := &SpecFunc{Name: strings.TrimSpace(rest[:open]), Pkg: pkg, Params: parseParams(rest[open+1 : closeIdx]),
 				Ret: strings.TrimSpace(after[:eqi]), BodySrc: strings.TrimSpace(after[eqi+1:]), File: file, Line: l.line}
+			if i := strings.Index(sf.Ret, " reads "); i >= 0 {
+				rd := strings.TrimSpace(sf.Ret[i+7:])
+				sf.Ret = strings.TrimSpace(sf.Ret[:i])
+				// d[lo:hi]
+				if j := strings.Index(rd, "["); j > 0 && strings.HasSuffix(rd, "]") {
+					sf.ReadsParam = rd[:j]
+					parts := strings.SplitN(rd[j+1:len(rd)-1], ":", 2)
+					if len(parts) == 2 {
+						sf.ReadsLo, sf.ReadsHi = strings.TrimSpace(parts[0]), strings.TrimSpace(parts[1])
+					}
+				}
+			}
 			e, err := parseSpecExpr(sf.BodySrc)
 			if err != nil {
 				errf(l.line, "parse spec body: %v", err)
